@@ -295,14 +295,16 @@ class DiagService(DiagComm):
         if len(result_list) < 1 and last_error is not None:
             raise last_error
         elif len(result_list) < 1:
-            odxraise(f"The service {self.short_name} cannot decode the message {raw_message.hex()}",
-                     DecodeError)
-            return Message(
-                coded_message=raw_message, service=self, coding_object=None, param_dict={})
+            # note that this is not a problem with the data which
+            # can be ignored in non-strict mode: callers like
+            # DiagLayer.decode() rely on this exception to find out
+            # that the service is not applicable
+            raise DecodeError(
+                f"The service {self.short_name} cannot decode the message {raw_message.hex()}")
         elif len(result_list) > 1:
-            odxraise(
-                f"The service {self.short_name} cannot uniquely decode the message {raw_message.hex()}",
-                DecodeError)
+            raise DecodeError(
+                f"The service {self.short_name} cannot uniquely decode the message {raw_message.hex()}"
+            )
 
         return result_list[0]
 
